@@ -12,6 +12,8 @@ def work(item, opts):
         case = item
     elif "b" in item:
         case = universe.battery()[item["b"]]
+    elif "n" in item:
+        case = universe.battery_inf()[item["n"]]
     elif "e" in item:
         case = universe.case_ext(item["e"])
         for k in ("mode", "workers"):
